@@ -295,6 +295,17 @@ def run(ctx, chk):
         chk.ok('C19.6', 'called-at-load', sample={'callers': cc})
     else:
         chk.fail('C19.6', 'called-at-load', 'create_cart_state is called from %s' % cc, 'src/mem.rs', None)
+    # ---- rule 9: the ROM / RAM buffers are built with exactly the sizes the header tables give
+    chk.rule('C19.9', 'D', 'MemoryAreas::with_rom_file sizes the ROM and cartridge RAM buffers with the values of '
+             'Header::get_rom_size_bytes / get_ram_size_bytes, unmodified', floor=2)
+    fixed9 = headercfg.fixed_buffer_sizes(facts)
+    for buf9, getter9 in (('rom', 'cart::Header::get_rom_size_bytes'), ('cart_ram', 'cart::Header::get_ram_size_bytes')):
+        got9 = fixed9.get(buf9)
+        if got9 == ('call', getter9):
+            chk.ok('C19.9', 'size:' + buf9, sample={'buffer': buf9, 'sized_by': getter9})
+        else:
+            chk.fail('C19.9', 'size:' + buf9, '%s is sized by %s, expected exactly the value of %s' % (buf9, got9, getter9),
+                     'src/mem.rs', None)
     # ---- rule 7
     offenders = []
     for fname, fn in prog.fns.items():
